@@ -167,7 +167,7 @@ def case_graph(p):
     stream, sent, _ = build_stream(p["msgs"], p["sizes"])
     loop = vloop.VirtualLoop().install()
     try:
-        g = explore.seg_graph(lambda: make_secure(len(sent) + 1), lambda o, d: o.data_received(d), canon_secure, observe, stream)
+        g = explore.seg_graph(lambda: make_secure(len(sent) + 1), lambda o, d: o.data_received(d), canon_secure, observe, stream, expect=sent, max_nodes=40 * (len(stream) + 1))
     finally:
         loop.shutdown()
     out = []
@@ -177,7 +177,7 @@ def case_graph(p):
         if obs != sent:
             out.append(("inbound:delivered-differs-from-sent", {"segments": list(path), "got_n": len(obs), "sent_n": len(sent)}))
             break
-    if not g["terminal"] and not g["errors"]:
+    if not g["terminal"] and not g["errors"] and not g["capped"] and not g["stopped_early"]:
         out.append(("inbound:stream-end-unreachable", {}))
     for obs, path in g["observations"].items():
         if obs != sent[: len(obs)]:
